@@ -667,4 +667,30 @@ def rule_called_each_time(ctx: Ctx):
     c01.rule_stored_callable(ctx, rule="C02.once")
 
 
-RULES = [rule_own_event_view, rule_order, rule_view, rule_plumbing, rule_keys, rule_support, rule_scope, rule_initial, rule_once, rule_providers, rule_awaited_once, rule_called_each_time]
+def rule_failure_stops_sequence(ctx: Ctx, rule: str = "C02.order"):
+    """C02.order (async engine): the groups run strictly one after the other and a group that did not complete - a callback
+    raised, or was cancelled - is the end of the sequence.  Collecting a group with `gather(..., return_exceptions=True)` (or
+    `asyncio.wait`) turns failures into values: whatever the code then forgets to re-raise (CancelledError is not an
+    Exception) counts as success and the later groups run."""
+    rep = ctx.rep
+    n = 0
+    for fn in ctx.p.all_functions():
+        if isinstance(fn.node, ast.Lambda):
+            continue
+        for nd in own_nodes(fn.node):
+            if not isinstance(nd, ast.Call):
+                continue
+            name = show(nd.func).split(".")[-1]
+            if name == "gather":
+                n += 1
+                kw = next((k for k in nd.keywords if k.arg == "return_exceptions"), None)
+                bad = kw is not None and not (isinstance(kw.value, ast.Constant) and kw.value.value is False)
+                rep.check(not bad, rule, fn.loc(nd), "a group of coroutine callbacks is gathered with failures propagating as exceptions "
+                          "(no return_exceptions): a failed or cancelled callback ends the sequence", fn.key, norm_stmt(nd))
+            elif name == "wait" and show(nd.func) in ("asyncio.wait", "wait"):
+                n += 1
+                rep.violation(rule, fn.loc(nd), "callbacks are collected with asyncio.wait, which reports failures as values", fn.key, norm_stmt(nd))
+    rep.floor(rule, "gather sites in the package", n, 1)
+
+
+RULES = [rule_own_event_view, rule_order, rule_view, rule_plumbing, rule_keys, rule_support, rule_scope, rule_initial, rule_once, rule_providers, rule_awaited_once, rule_called_each_time, rule_failure_stops_sequence]
